@@ -29,8 +29,8 @@ CHECKS = {
    engine="sim",
    technique="resource-fault simulation: simulator-chosen stack budget and tree-shaping history, child-process containment, in-process stack-depth probe",
    level=dict(category="fault_enumeration", design_ref="DESIGN.md section 6",
-     text="Every scenario of a fixed grid (container kind x insertion-order shape x size x first operation at either end x teardown mode incl. partial consumption x stack budget x build profile; five families of large Boolean operations) plus seeded ones runs in a child process whose exit status is the oracle; an in-process probe bounds stack depth during comparator and element-drop callbacks."),
-   note="Stack budgets are the two the property names (8 MiB, 2 MiB); children built optimised and with opt-level 0; sizes 1e3..3e6 keys, operations up to 1.6e6 edges (comb, staircase, nested rings, grid, bow tie)."),
+     text="Every scenario of a fixed grid (container kind x insertion-order shape x size x first operation at either end x build mode (insert / one extend call / extend batches) x teardown mode incl. partial consumption x stack budget x build profile; eight families of large Boolean operations) plus seeded ones runs in a child process whose exit status is the oracle; an in-process probe bounds stack depth during comparator and element-drop callbacks."),
+   note="Stack budgets are the two the property names (8 MiB, 2 MiB); children built optimised and with opt-level 0; sizes 1e3..3e6 keys, operations up to 1.6e6 edges (comb, transposed comb, overlap row, sieve of holes, staircase, nested rings, grid, bow tie)."),
  "C09": dict(
    engine="sim",
    technique="buggify differential: the bounding-box shortcut and the early sweep exit are cooperative fault points the simulator switches off (boxes widened at their source); every configuration compared with the all-slow-path reference execution; fast paths the switches cannot reach are detected through the sweep seams and checked against a small executable region model",
